@@ -542,10 +542,12 @@ func (c *conflictRec) NotifyConflict(existing, other *ml.Node) {
 func (c *conflictRec) Len() int { c.mu.Lock(); defer c.mu.Unlock(); return len(c.Log) }
 
 type mergeRec struct {
-	mu    sync.Mutex
-	Veto  bool
-	Calls int
-	Last  []string
+	mu       sync.Mutex
+	Veto     bool
+	VetoName string // non-empty: refuse iff a peer of this name is among those shown
+	Calls    int
+	Last     []string
+	LastFull []string // name|address|meta|state of every peer shown, copied inside the callback
 }
 
 func (m *mergeRec) NotifyMerge(peers []*ml.Node) error {
@@ -553,8 +555,17 @@ func (m *mergeRec) NotifyMerge(peers []*ml.Node) error {
 	defer m.mu.Unlock()
 	m.Calls++
 	m.Last = nil
+	m.LastFull = nil
+	named := false
 	for _, p := range peers {
 		m.Last = append(m.Last, p.Name)
+		m.LastFull = append(m.LastFull, fmt.Sprintf("%s|%s|%s|%d", p.Name, p.Address(), p.Meta, p.State))
+		if m.VetoName != "" && p.Name == m.VetoName {
+			named = true
+		}
+	}
+	if named {
+		return errors.New("vetoed by merge delegate: unwanted peer in the list")
 	}
 	if m.Veto {
 		return errors.New("vetoed by merge delegate")
